@@ -38,8 +38,8 @@ def FreshSeg : List Nat → List ABlock → Prop
   | u, b :: rest => ((∀ k ∈ b.outs, k ∉ u) ∧ (∀ k ∈ b.outs, k ∉ b.ins)) ∧ FreshSeg (windU b u) rest
 
 theorem validB_ins (fl : Flags) (st : State) (b : ABlock) (hf : fl.txVerdict = true)
-    (h : validB fl st b = true) : ∀ k ∈ b.ins, k ∈ st.utxo := by
-  simp [validB, hf] at h
+    (h : validBS fl st b = true) : ∀ k ∈ b.ins, k ∈ st.utxo := by
+  simp [validBS, hf] at h
   exact h.2
 
 /-- what `windAll` returns: the blocks it wound are a prefix `pre` of the input, newest first on `done` -/
